@@ -295,12 +295,18 @@ func (e *Engine) displayMultilinePrompts() {
 		term.MoveCursorDown(e.lineRows - printed)
 	}
 
-	// Then if we have a line at all, rewrite the last column
-	// character with any secondary prompt available.
-	if e.line.Lines() > 0 {
+	// Then if we have several lines, print any secondary prompt available
+	// in front of the last one: on the row where this line starts (it might
+	// wrap on several rows), and only if it fits in the indentation.
+	if e.line.Lines() > 0 && e.prompt.SecondaryUsed() <= e.startCols {
+		lines := strings.Split(string(*e.line), "\n")
+		_, wrapped := strutil.LineSpan([]rune(lines[len(lines)-1]), 0, e.startCols)
+
+		term.MoveCursorUp(wrapped)
 		term.MoveCursorBackwards(term.GetWidth())
 		e.prompt.SecondaryPrint()
 		term.MoveCursorBackwards(term.GetWidth())
+		term.MoveCursorDown(wrapped)
 		term.MoveCursorForwards(e.lineCol)
 	}
 
